@@ -205,6 +205,28 @@ def random_abstract(rng, N=6, K=4, max_edges=10, nsites=3, nmuts=4, p_internal_s
     return a
 
 
+def permute_nodes(a, rng):
+    """the same abstract ts under a random renumbering of the nodes: node ids carry no meaning in the data model (a parent may have a
+    smaller id than its child, samples need not come first), only the edge table has to stay grouped by parent in order of parent time"""
+    N = len(a["time"])
+    perm = list(range(N))
+    rng.shuffle(perm)                      # old id u -> new id perm[u]
+    b = dict(a)
+    b["time"] = [0] * N
+    b["flags"] = [0] * N
+    for u in range(N):
+        b["time"][perm[u]] = a["time"][u]
+        b["flags"][perm[u]] = a["flags"][u]
+    edges = [dict(left=e["left"], right=e["right"], parent=perm[e["parent"]], child=perm[e["child"]]) for e in a["edges"]]
+    edges.sort(key=lambda e: (b["time"][e["parent"]], e["parent"], e["child"], e["left"]))
+    b["edges"] = edges
+    b["muts"] = [dict(m, node=perm[m["node"]]) for m in a.get("muts", [])]
+    b["sites"] = [dict(s) for s in a.get("sites", [])]
+    b.pop("ins", None)
+    b.pop("rem", None)
+    return b
+
+
 def parent_at(a, x):
     par = [-1] * len(a["time"])
     for e in a["edges"]:
